@@ -249,11 +249,11 @@ fn apply(w: &mut World, op: &Value) {
             }
         }
         "link" => {
-            // array (live, non-empty) . slot = target; never from a caller-owned array to a managed object
+            // array (live, non-empty) . slot = target (any live object: a caller-owned array may refer
+            // to a managed object, as a handed-out result that a variable still refers to does)
             let arr = w.pick(n(1), |m| m.own != Own::Released && matches!(&m.val, Val::A(v) if !v.is_empty()));
             if let Some(a) = arr {
-                let a_own = w.model[a].own.clone();
-                let tgt = w.pick(n(3), |m| m.own != Own::Released && (a_own == Own::Managed || m.own == Own::Caller));
+                let tgt = w.pick(n(3), |m| m.own != Own::Released);
                 if let Some(t) = tgt {
                     let len = match &w.model[a].val {
                         Val::A(v) => v.len(),
@@ -363,11 +363,36 @@ fn apply(w: &mut World, op: &Value) {
                     w.model[i].own = Own::Released;
                 }
             }
+            // A caller-owned array that was not passed as a root may have referred to an object that has
+            // just been reclaimed (legitimately: nothing the collector was told about reached it). The
+            // simulated caller does not keep such dangling references: it clears the slot.
+            let mut clear: Vec<(usize, usize)> = Vec::new();
+            for i in 0..w.model.len() {
+                if w.model[i].own == Own::Caller {
+                    if let Val::A(v) = &w.model[i].val {
+                        for (slot, e) in v.iter().enumerate() {
+                            if let Some(t) = e {
+                                if w.model[*t].own == Own::Released {
+                                    clear.push((i, slot));
+                                }
+                            }
+                        }
+                    }
+                }
+            }
             let after = w.model.iter().filter(|m| m.own == Own::Managed).count();
             w.stats_freed += (before - after) as u64;
             w.stats_collections += 1;
             let refs: Vec<&[Object]> = slices.iter().map(|v| v.as_slice()).collect();
             w.gc.as_mut().unwrap().run(&refs);
+            for (i, slot) in clear {
+                let _g = sim::enter_harness();
+                let mut h = w.handles[i];
+                h.as_vec_mut()[slot] = Object::null();
+                if let Val::A(v) = &mut w.model[i].val {
+                    v[slot] = None;
+                }
+            }
         }
         "untrace" => {
             if w.gc.is_none() {
